@@ -162,6 +162,105 @@ def extract_prompt():
     raise ValueError("prompt")
 
 
+def g4_statements(rel):
+    """The statements (`...;`) of an ANTLR grammar file, layout and comments removed: white space survives only
+    inside quoted literals and character classes, and as one blank between two identifier characters."""
+    text = (REPO / rel).read_text()
+    out, cur = [], []
+    i, n = 0, len(text)
+    def ident(c):
+        return c.isalnum() or c == "_"
+    pending_space = False
+    while i < n:
+        c = text[i]
+        if c == "'" or c == "[":
+            close = "'" if c == "'" else "]"
+            j = i + 1
+            while j < n and text[j] != close:
+                j += 2 if text[j] == "\\" else 1
+            cur.append(text[i:j + 1])
+            i = j + 1
+            pending_space = False
+            continue
+        if text.startswith("//", i):
+            while i < n and text[i] != "\n":
+                i += 1
+            continue
+        if text.startswith("/*", i):
+            j = text.find("*/", i + 2)
+            i = n if j < 0 else j + 2
+            continue
+        if c.isspace():
+            pending_space = True
+            i += 1
+            continue
+        if c == ";":
+            out.append("".join(cur))
+            cur = []
+            pending_space = False
+            i += 1
+            continue
+        if pending_space and cur and ident(c) and ident(cur[-1][-1]):
+            cur.append(" ")
+        pending_space = False
+        cur.append(c)
+        i += 1
+    if "".join(cur).strip():
+        out.append("".join(cur))
+    if not out:
+        raise ValueError("no statements in " + rel)
+    return out
+
+
+def generated_tables(rel):
+    """What the generated recogniser (the code that actually runs) contains: the serialised ATN and the name tables."""
+    tree = _parse(rel)
+    atn = None
+    names = {}
+    for node in ast.walk(tree):
+        if isinstance(node, ast.FunctionDef) and node.name == "serializedATN":
+            for sub in ast.walk(node):
+                if isinstance(sub, ast.Return):
+                    v = ast.literal_eval(sub.value)
+                    if isinstance(v, list) and all(isinstance(x, int) for x in v):
+                        atn = v
+        if isinstance(node, ast.Assign) and len(node.targets) == 1 and isinstance(node.targets[0], ast.Name) \
+                and node.targets[0].id in ("modeNames", "ruleNames", "symbolicNames", "literalNames"):
+            try:
+                v = ast.literal_eval(node.value)
+            except Exception:
+                continue
+            if isinstance(v, list) and all(isinstance(x, str) for x in v):
+                names[node.targets[0].id] = v
+    if atn is None or "ruleNames" not in names:
+        raise ValueError("generated recogniser " + rel)
+    return {"atn": atn, "ruleNames": names["ruleNames"], "modeNames": names.get("modeNames", []),
+            "symbolicNames": names.get("symbolicNames", [])}
+
+
+def lean_string_lit(s):
+    out = []
+    for c in s:
+        if c == "\\":
+            out.append("\\\\")
+        elif c == '"':
+            out.append('\\"')
+        elif 32 <= ord(c) < 127:
+            out.append(c)
+        else:
+            out.append("\\u{%x}" % ord(c))
+    return '"' + "".join(out) + '"'
+
+
+def lean_string_list(xs, indent="  "):
+    return "[\n" + ",\n".join(indent + lean_string_lit(x) for x in xs) + "\n]"
+
+
+def lean_nat_list(xs, per_line=24):
+    rows = [", ".join(str(x) for x in xs[i:i + per_line]) for i in range(0, len(xs), per_line)]
+    return "[\n  " + ",\n  ".join(rows) + "\n]"
+
+
 def lean_char(c):
     if 32 <= ord(c) < 127 and c not in "'\\\"":
         return f"'{c}'"
@@ -180,7 +279,7 @@ def render(t):
         "/-",
         "GENERATED by harness/extract.py from /repo's current source — do not edit.",
         "Tables: E1 escape table, E2 hash chunk size, E3 exit codes + `except` order of main(),",
-        "E4 prompt options.",
+        "E4 prompt options, E5 grammar statements, E6 generated lexer/parser automata.",
         "-/",
         "namespace Tempren",
         "namespace Extracted",
@@ -212,6 +311,17 @@ def render(t):
     lines.append(f"def promptEmptyIs : List Char := {lean_str(t['prompt_empty_is'] or '')}")
     lines.append(f"def promptLowercases : Bool := {'true' if t['prompt_lowercases'] else 'false'}")
     lines.append("")
+    lines.append("/-- E5: the statements of TagTemplateLexer.g4 / TagTemplateParser.g4 (layout and comments removed) -/")
+    lines.append("def lexerGrammar : List String := " + lean_string_list(t["lexer_grammar"]))
+    lines.append("def parserGrammar : List String := " + lean_string_list(t["parser_grammar"]))
+    lines.append("")
+    lines.append("/-- E6: the generated recognisers that actually run: serialised ATN and name tables -/")
+    lines.append("def lexerATN : List Int := " + lean_nat_list(t["lexer_generated"]["atn"]))
+    lines.append("def lexerRuleNames : List String := " + lean_string_list(t["lexer_generated"]["ruleNames"]))
+    lines.append("def lexerModeNames : List String := " + lean_string_list(t["lexer_generated"]["modeNames"]))
+    lines.append("def parserATN : List Int := " + lean_nat_list(t["parser_generated"]["atn"]))
+    lines.append("def parserRuleNames : List String := " + lean_string_list(t["parser_generated"]["ruleNames"]))
+    lines.append("")
     lines.append("end Extracted")
     lines.append("end Tempren")
     return "\n".join(lines) + "\n"
@@ -239,6 +349,19 @@ def run():
         status["prompt"] = "extracted"
     except Exception as exc:
         status["prompt"] = f"unrecognised-shape ({exc})"
+    for key, fn in (
+        ("lexer_grammar", lambda: g4_statements("tempren/template/grammar/TagTemplateLexer.g4")),
+        ("parser_grammar", lambda: g4_statements("tempren/template/grammar/TagTemplateParser.g4")),
+        ("lexer_generated", lambda: generated_tables("tempren/template/grammar/TagTemplateLexer.py")),
+        ("parser_generated", lambda: generated_tables("tempren/template/grammar/TagTemplateParser.py")),
+    ):
+        try:
+            tables[key] = fn()
+            status[key] = "extracted"
+        except Exception as exc:
+            # nothing recognisable: an empty table, so that the pinned theorem (Props/C10Grammar.lean) does not hold
+            tables[key] = [] if key.endswith("grammar") else {"atn": [], "ruleNames": [], "modeNames": [], "symbolicNames": []}
+            status[key] = f"unrecognised-shape ({exc})"
     # handlers may name codes that are not in error_codes
     for cls, code in tables["handlers"]:
         if code != "<status>" and code not in tables["error_codes"]:
